@@ -153,8 +153,13 @@ def observe(cfg):
     pair, opts, shape, err = cfg["pair"], cfg["opts"], cfg["shape"], cfg["err"]
     single_fn, batch_fn, table = FN[pair]
     names = list(REQUIRED[pair])
+    optnames = []
     for o in sorted(opts):
-        names += GROUPS.get(o, [o])
+        optnames += GROUPS.get(o, [o])
+    part = cfg.get("part", 0)
+    if part and len(optnames) >= 2:
+        del optnames[(part - 1) % len(optnames)]      # a partially specified group
+    names += optnames
     base = copy.deepcopy(base_net())
     lt, tt, t3 = std_types(shape)
     pp.create_std_type(base, lt, "vt", element="line")
@@ -165,6 +170,9 @@ def observe(cfg):
             pp.create_poly_cost(base, 1, "gen", 3.0)
         else:
             pp.create_pwl_cost(base, 1, "gen", [[0, 1, 2.0]], power_type="q" if "power_type" in opts else "p")
+    if err == "none_pre_pq":     # another generator with a 'p' and a 'q' pwl cost: two legal rows for one element
+        pp.create_pwl_cost(base, 0, "gen", [[0, 1, 2.0]], power_type="p")
+        pp.create_pwl_cost(base, 0, "gen", [[0, 1, 3.0]], power_type="q")
     # per-row argument values
     rows = []
     for r in (0, 1):
@@ -185,7 +193,10 @@ def observe(cfg):
         rows[1][busarg] = 99
     elif err == "dup_index_net":
         pre = dict(rows[0])
-        getattr(pp, single_fn)(base, index=7, **pre)      # a row with index 7 already exists
+        try:
+            getattr(pp, single_fn)(base, index=7, **pre)      # a row with index 7 already exists
+        except Exception:  # noqa  (an inconsistent partial parameter group: both routes will reject it as well)
+            pass
         if pair in ("poly_cost", "pwl_cost"):
             for kw in rows:
                 kw["element"] += 1                           # avoid a duplicate-cost rejection on top
@@ -296,7 +307,9 @@ def run(tier, seed, replay=None):
         if name == "C24_SameRows":
             cols = diff_cols(c)
             fam = sorted({"tap" if k.startswith("tap") else k for k in cols})      # column families
-            key = "C24|%s|SameRows|%s" % (cf["pair"], ",".join(fam)[:120])
+            chosen = {n for o in cf["opts"] for n in GROUPS.get(o, [o])} | {"g0_us_per_km"}
+            partial = bool(cf.get("part")) and set(cols) <= chosen      # the difference lies in the partially given group itself
+            key = "C24|%s|SameRows|%s" % (cf["pair"], "partial_group" if partial else ",".join(fam)[:120])
             what = "batch and single rows differ in %s for %s (std shape %s, explicit %s)" % (cols, cf["pair"], cf["shape"], cf["opts"])
         else:
             key = "C24|%s|%s|err=%s" % (cf["pair"], name[4:], cf["err"])
